@@ -1,5 +1,9 @@
 //! An `HpoSet` can represent e.g. the clinical information of a patient or the symptoms of a disease
+#[cfg(not(feature = "verif"))]
 use std::collections::HashMap;
+#[cfg(feature = "verif")]
+#[allow(unused_imports)]
+use crate::verif::{HashMap, MapNew};
 
 use crate::annotations::Genes;
 use crate::annotations::{OmimDiseases, OrphaDiseases};
